@@ -122,6 +122,9 @@ func (fr *Frame) callWithArgs(s *State, g *Term, call *ssa.CallCommon, ins ssa.I
 			if callee.Blocks == nil {
 				panic("pure/inline function without body: " + key)
 			}
+			if fc.Recursive > 0 {
+				return fr.applyRecursive(s, callee, fc, args)
+			}
 			return fr.inlineCall(s, g, callee, args, nil, fc.Pure || fr.spec)
 		}
 		if fr.spec {
@@ -191,6 +194,14 @@ func (fr *Frame) inlineCall(s *State, g *Term, callee *ssa.Function, args []*Ter
 	cf.params = args
 	cf.bindings = bindings
 	cf.spec = spec
+	if spec {
+		// memory as it was when specification evaluation started (before spec-local temporaries)
+		if fr.spec && fr.specBase != nil {
+			cf.specBase = fr.specBase
+		} else {
+			cf.specBase = s.clone()
+		}
+	}
 	saved := s.regs
 	savedDefers := s.defers
 	s.regs = map[any]*Term{}
@@ -627,4 +638,96 @@ func (fr *Frame) builtinAppend(s *State, g *Term, sl, more *Term, st, mt types.T
 	x.assume(g, c.Forall([]*Term{r}, c.Ite(inRes, c.Eq(c.Select(nm, r), val), c.Eq(c.Select(nm, r), c.Select(old, r))), c.Select(nm, r)))
 	s.mem[es] = nm
 	return res
+}
+
+// ---------- recursive specification functions ----------
+
+// readSorts: memory components a function (transitively, within the module) reads.
+func (x *Exec) readSorts(fn *ssa.Function, seen map[*ssa.Function]bool, out map[string]bool) {
+	if seen[fn] || fn.Blocks == nil {
+		return
+	}
+	seen[fn] = true
+	for _, b := range fn.Blocks {
+		for _, ins := range b.Instrs {
+			switch ins := ins.(type) {
+			case *ssa.UnOp:
+				if ins.Op == token.MUL && !rootedAtLocal(ins.X) {
+					x.leafSorts(ins.Type(), out)
+				}
+			case *ssa.Lookup:
+				if mt, ok := ins.X.Type().Underlying().(*types.Map); ok {
+					ks, vs := mapKeys(x, mt)
+					out["mapP|"+ks] = true
+					out["mapV|"+ks+"|"+vs] = true
+				}
+			case *ssa.Call:
+				if callee := ins.Call.StaticCallee(); callee != nil {
+					x.readSorts(callee, seen, out)
+				}
+			}
+		}
+	}
+}
+
+// rootedAtLocal: the address is a field/element of a local variable of the function.
+func rootedAtLocal(v ssa.Value) bool {
+	for {
+		switch a := v.(type) {
+		case *ssa.Alloc:
+			return true
+		case *ssa.FieldAddr:
+			v = a.X
+		case *ssa.IndexAddr:
+			if _, isPtr := a.X.Type().Underlying().(*types.Pointer); !isPtr {
+				return false
+			}
+			v = a.X
+		default:
+			return false
+		}
+	}
+}
+
+// applyRecursive: the call is an application of an uninterpreted function of
+// the arguments and of the memory the function reads; its definition (the
+// body, with inner recursive calls again as applications) is added as a
+// definitional fact, unfolded to the depth the contract asks for.
+func (fr *Frame) applyRecursive(s *State, callee *ssa.Function, fc *FuncContract, args []*Term) *Term {
+	x := fr.x
+	c := x.c
+	key := funcKey(callee)
+	rt := resultType(callee.Signature)
+	if rt == nil {
+		cfail("recursive spec function %s has no result", key)
+	}
+	if _, isTup := rt.(*types.Tuple); isTup {
+		cfail("recursive spec function %s must have a single result (use a struct)", key)
+	}
+	sorts := map[string]bool{}
+	x.readSorts(callee, map[*ssa.Function]bool{}, sorts)
+	var ufargs []*Term
+	for _, k := range sortedKeys(sorts) {
+		base := s
+		if fr.spec && fr.specBase != nil {
+			base = fr.specBase
+		}
+		ufargs = append(ufargs, x.memByKey(base, k))
+	}
+	ufargs = append(ufargs, args...)
+	app := c.UF("rec_"+sanitize(shortKey(key)), x.ti.sortOf(rt), ufargs...)
+	if x.recDepth == nil {
+		x.recDepth = map[string]int{}
+		x.recDone = map[*Term]bool{}
+	}
+	if app.open || x.recDepth[key] >= fc.Recursive || x.recDone[app] {
+		return app
+	}
+	x.recDone[app] = true
+	x.recDepth[key]++
+	body := fr.inlineCall(s.clone(), c.True(), callee, args, nil, true)
+	x.recDepth[key]--
+	x.assumeRaw(c.Eq(app, body))
+	x.note("recursive specification function " + shortKey(key) + " is an uninterpreted function with its defining equation unfolded at each application; its termination (decreasing fuel) is by inspection")
+	return app
 }
